@@ -302,10 +302,11 @@ asn1c_emit_constraint_tables(arg_t *arg, int got_size) {
 	 * Check if we need a test table to check the alphabet.
 	 */
 	use_table = 1;
-	if(range->el_count == 0) {
+	if(range->el_count == 0 && etype != ASN_STRING_UTF8String) {
 		/*
 		 * It's better to have a short if() check
-		 * than waste 1k of table space
+		 * than waste 1k of table space.
+		 * (UTF8String is checked through the table or not at all.)
 		 */
 		use_table = 0;
 	}
